@@ -19,7 +19,7 @@ ASSUMPTIONS = [
 
 def run(tier):
     name = "sampling_quick" if tier == "quick" else "sampling_thorough"
-    jobs = [Job("harness.c18", name, H.shards(name), 240 if tier == "quick" else 1800,
+    jobs = [Job("harness.c18", name, H.shards(name), 240 if tier == "quick" else 600,
                 bounds=dict(rate="None | 0 | 1 | all N >= 2 (symbolic)", draws="4 symbolic draws", yield_resume_pairs="<=2" if tier == "quick" else "<=3",
                             functions=["gen_rebinding", "mod_func", "gen_func"], values="atoms int/str/None"),
                 rule="one path = one (rate class, draw classes, script shape, value shapes)", describe=H.describe),
